@@ -631,7 +631,7 @@ Proof.
              Signer_gen_proofs.g_sub3 c (rq_ip q) rs (rq_body q) Hbare Hpre eq_refl eq_refl Hconn Hclc sk); assumption.
   - intros Hskip key Hkey.
     apply (gen_hmac_verifies Signer_gen_proofs.g_cov Signer_gen_proofs.g_covh Signer_gen_proofs.g_protected
-             Signer_gen_proofs.g_cov_ok Signer_gen_proofs.g_covh_ok Signer_gen_proofs.g_sub1 Signer_gen_proofs.g_sub2
+             Signer_gen_proofs.g_covh_ok Signer_gen_proofs.g_sub2
              Signer_gen_proofs.g_sub3 c (rq_ip q) rs (rq_body q) Hbare Hpre eq_refl eq_refl Hconn Hclc key); assumption.
 Qed.
 
